@@ -1,5 +1,6 @@
 import Cppcms.C07.Proto
 import Cppcms.C08.Spec
+import Cppcms.C08.Buddy
 /-!
 `c08_model`: the protocol of `c07_model` (one model of `mem_cache` serves C07 and C08) plus the
 C08 judge:
@@ -9,12 +10,56 @@ written from the property text, independent of `Gen`/`Model`) over the history a
 the implementation's answer (hit/miss, value, trigger set, deadline) and its `stats` after the
 operation are identical, and that the key count respects the limit.  Only for histories without
 memory pressure.  Answer `1` or `0 <reason>`.
+
+`binit <total>`, `bmalloc <size> at=<offset>|null`, `bfree <offset>` run the buddy allocator model
+(`Buddy.lean`); the address the real allocator chose is an oracle annotation (`at=`), the model
+checks that it is a free region of the right order, and answers with the free blocks and the two
+free-memory figures computed from its own state.
 -/
 open Cppcms Cppcms.C07 Cppcms.C07.Proto Cppcms.C08
 
 structure D8 where
   d : DState := {}
   r : Ref := {}
+  a : Option Buddy.Arena := none
+
+def bdump (a : Buddy.Arena) : String :=
+  let fb := a.freeBlocks
+  let l := if fb.isEmpty then "-" else ",".intercalate (fb.map fun b => s!"{b.1}:{b.2}")
+  s!" | {l} | {a.totalFree} {a.maxFreeChunk}"
+
+def buddyLine (a : Option Buddy.Arena) (w : List String) : Option Buddy.Arena × String :=
+  match w, a with
+  | ["binit", total], _ =>
+    match total.toNat? with
+    | some t =>
+      if t < Gen.headerSize then (a, "bad-op") else
+      let ar := Buddy.init (t - Gen.headerSize)
+      (some ar, s!"ok usable={t - Gen.headerSize}" ++ bdump ar)
+    | none => (a, "bad-op")
+  | ["bmalloc", size, ann], some ar =>
+    match size.toNat? with
+    | some sz =>
+      let k := Buddy.orderOf sz
+      if ann == "null" then
+        (a, if ar.canAlloc k then "model-can-allocate" ++ bdump ar else "null" ++ bdump ar)
+      else if ann.startsWith "at=" then
+        match (ann.drop 3).toString.toNat? with
+        | some off =>
+          (match ar.allocAt k off with
+           | some ar' => (some ar', s!"at {off} {k}" ++ bdump ar')
+           | none => (a, "model-rejects-address" ++ bdump ar))
+        | none => (a, "bad-op")
+      else (a, "bad-op")
+    | none => (a, "bad-op")
+  | ["bfree", off], some ar =>
+    match off.toNat? with
+    | some o =>
+      (match ar.freeAt o with
+       | some (ar', _) => (some ar', "ok" ++ bdump ar')
+       | none => (a, "model-rejects-free" ++ bdump ar))
+    | none => (a, "bad-op")
+  | _, _ => (a, "bad-op")
 
 def judge8 (r : Ref) (w : List String) : Ref × String :=
   let (implw, casew) := splitAt ";" w
@@ -51,6 +96,9 @@ def judge8 (r : Ref) (w : List String) : Ref × String :=
 def step8 (st : D8) (line : String) : D8 × String :=
   match words line with
   | "J8" :: rest => let (r, o) := judge8 st.r rest; ({ st with r := r }, o)
+  | "binit" :: rest => let (a, o) := buddyLine st.a ("binit" :: rest); ({ st with a := a }, o)
+  | "bmalloc" :: rest => let (a, o) := buddyLine st.a ("bmalloc" :: rest); ({ st with a := a }, o)
+  | "bfree" :: rest => let (a, o) := buddyLine st.a ("bfree" :: rest); ({ st with a := a }, o)
   | _ => let (d, o) := stepLine st.d line; ({ st with d := d }, o)
 
 def main : IO Unit := lineLoop ({} : D8) step8
